@@ -197,8 +197,8 @@ PLAN = {
     "C11": {"level": "exploration", "engines": _both(_model("ttl"), _sweep("sweeper", 6, 3, 60, 8), _sweep("ttlcrash", 8, 8, 160, 16), _sweep("bigretire", 2, 2, 24, 8)), "min_nontrivial": 300,
             "assumptions": MODEL_ASSUMPTIONS + CONC_ASSUMPTIONS[:2] + ["sweeper runs use the process-wide virtual clock offset (hook H6) for jumps; bounds around calls are taken from that clock before and after each call"]},
     "C12": {"level": "exploration", "engines": _model("ts"), "min_nontrivial": 300, "assumptions": MODEL_ASSUMPTIONS},
-    "C13": {"level": "exploration", "engines": _both(_model("mem"), MEMLIMIT, _conc("lin", 6, 12, {"histories": 400}, {"histories": 8000}), _crash("ack", 4, 60, cuts_q=60, cuts_t=200)), "min_nontrivial": 300, "assumptions": MODEL_ASSUMPTIONS + CONC_ASSUMPTIONS},
-    "C14": {"level": "exploration", "engines": _both(_model("range"), SCAN), "min_nontrivial": 300, "assumptions": MODEL_ASSUMPTIONS + CONC_ASSUMPTIONS},
+    "C13": {"level": "exploration", "engines": _both(_model("mem"), MEMLIMIT, _conc("lin", 6, 12, {"histories": 400}, {"histories": 8000}), _crash("ack", 4, 60, cuts_q=60, cuts_t=200), _sweep("sweeper", 4, 2, 40, 8)), "min_nontrivial": 300, "assumptions": MODEL_ASSUMPTIONS + CONC_ASSUMPTIONS},
+    "C14": {"level": "exploration", "engines": _both(_model("range"), SCAN, _sweep("sweeper", 4, 2, 40, 8)), "min_nontrivial": 300, "assumptions": MODEL_ASSUMPTIONS + CONC_ASSUMPTIONS},
     "C16": {"level": "exploration", "engines": _both(_model("cache", configs="cachepair", quick_programs=60, thorough_programs=1500), _conc("reuse", 8, 16, {"runs": 6, "cache": 1}, {"runs": 120, "cache": 1}), _cache), "min_nontrivial": 200, "assumptions": MODEL_ASSUMPTIONS + CONC_ASSUMPTIONS},
     "C06": {
         "level": "exploration",
